@@ -34,7 +34,8 @@ Record world := mkW { w_exp : exp; w_objs : list oset; w_pool : list (list (ie *
 Inductive gop :=
 | GOp (o : op) (rep : nat)                  (* builder operation; an add makes fresh element objects (pool entry) *)
 | GShared (f : addform) (tag : nat) (id : N) (* AddRecord*(the element objects of pool entry tag, id) *)
-| GMut (tag j : nat) (v : value).            (* SetXxxValue(v) on element j of pool entry tag *)
+| GMut (tag j : nat) (v : value)             (* SetXxxValue(v) on element j of pool entry tag *)
+| GBuf.                                      (* the application calls GetBuffer() on every record of the set *)
 
 Inductive gevent :=
 | GSend (obj : option nat) (ops : list gop) (t : N)  (* on a new set object / on object obj: ops, then SendSet at time t *)
@@ -81,6 +82,9 @@ Fixpoint upd_nth {A} (k : nat) (f : A -> A) (l : list A) : list A :=
   | x :: r, S k' => x :: upd_nth k' f r
   end.
 
+(* GetBuffer on every record: the buffers (and the encode errors) are cached from now on *)
+Definition obj_getbuf (o : oset) : oset := mkO (o_set o) (map (fun m => (fst m, true)) (o_meta o)).
+
 Definition with_objs (w : world) (l : list oset) : world := mkW (w_exp w) l (w_pool w).
 
 (* one operation of an event that works on set object k *)
@@ -101,13 +105,15 @@ Definition apply_gop (w : world) (k : nat) (g : gop) : world :=
       end
   | GMut tag j v =>
       mkW (w_exp w) (map (mut_set tag j v) (w_objs w)) (upd_nth tag (set_nth_val j v) (w_pool w))
+  | GBuf => with_objs w (upd_nth k obj_getbuf (w_objs w))
   end.
 
 (* ---- SendSet on a set object ---- *)
 (* the n oldest records (the first n in Go order) have their buffers cached now *)
 Definition mark_first (n : nat) (ms : list rmeta) : list rmeta :=
   map (fun m => (fst m, true)) (firstn n ms) ++ skipn n ms.
-Definition freeze (n : nat) (ms : list rmeta) : list rmeta := rev (mark_first n (rev ms)).
+Definition freeze (n : nat) (ms : list rmeta) : list rmeta :=
+  rev_append (mark_first n (rev_append ms [])) [].   (* rev, in linear time *)
 
 Inductive gout :=
 | OSent (st : exp) (s : setb) (t : N) (x : sent)           (* state before, the set as SendSet saw it, the call *)
@@ -146,6 +152,18 @@ Fixpoint gfinal (fx : fixes) (w : world) (h : list gevent) : world :=
   | [] => w
   | e :: r => gfinal fx (fst (gstep fx w e)) r
   end.
+
+(* both at once (the driver runs a history once) *)
+Fixpoint grun2 (fx : fixes) (w : world) (h : list gevent) : list gout * world :=
+  match h with
+  | [] => ([], w)
+  | e :: r => let '(w', o) := gstep fx w e in let '(os, wf) := grun2 fx w' r in (o :: os, wf)
+  end.
+Lemma grun2_spec fx h : forall w, grun2 fx w h = (grun fx w h, gfinal fx w h).
+Proof.
+  induction h as [|e r IH]; intros w; [reflexivity|]. cbn [grun2 grun gfinal].
+  destruct (gstep fx w e) as [w' o]. cbn [fst]. now rewrite IH.
+Qed.
 
 Definition init_world (st : exp) : world := mkW st [] [].
 
